@@ -50,7 +50,7 @@ GivesUp(op) == CASE op = "reset1" -> {"s1"} [] op = "reset2" -> {"s2"} [] op = "
 IsPlain(k) == k \in {"pr", "pw"}
 Conflict(k1, o1, k2, o2) == IsPlain(k1) /\ IsPlain(k2) /\ o1 = o2 /\ ("pw" \in {k1, k2})
 MonEv(m, rec) ==
-    LET onData == rec.k \in {"fsub", "fadd", "xchg", "store", "load", "pr", "pw"}
+    LET onData == rec.k \in {"fsub", "fadd", "xchg", "store", "load", "pr", "pw", "cas", "fand", "for", "fxor", "fnand"}
         freeM == rec.k = "free" /\ rec.o = -1
         freeD == rec.k = "free" /\ rec.o = -2
         race == \E j \in 1..Len(rec.pend) : Conflict(rec.k, rec.o, rec.pend[j][2], rec.pend[j][3])
